@@ -8,9 +8,15 @@ CFG = {
             "generated streams (three chunkings), Close() issued while blocked in a read at every chunk boundary, four consumers "
             "(Finish at once / retain everything / Finish 1..5 items late) with deep copies compared to the retained originals, "
             "Escape-timer scripts with 40 ms pauses after a lone ESC and back-to-back reads otherwise; distinct by (consumer, script)",
-    "trusted_base": [],
-    "assumptions": [],
-    "level_text": "",
-    "level_note": "",
+    "trusted_base": ["atomicity of the steps that run under Parser.mu; FIFO order of emit; time.AfterFunc/Stop and sync.Pool semantics as stated in notes/C08.md",
+                     "pool ownership model (Own) follows escapeDispatch/csiDispatch/hook/Finish by reading, validated by the retention harness"],
+    "assumptions": ["the consumer keeps receiving (emit blocks otherwise, by design)", "each delivered sequence is passed to Finish at most once",
+                    "40 ms >> 10 ms >> back-to-back reads on the test machine (prompt cases with surplus Escape reports are re-run)"],
+    "level_text": "Proved for every schedule of reads, end of input, Close(), timer firings and late timer callbacks: exactly one EOF, last, then the channel is closed, "
+                  "nothing emitted afterwards; no panic; end of input / Close+read return stop the loop; no deadlock; number of Escape reports = number of (up-to-date) "
+                  "timer firings; lone ESC => one C0 1B then ground; prompt ESC => none; a late callback is the Escape key or a no-op; pool ownership: the parser never "
+                  "writes to an array of a delivered, unfinished sequence. Real time is abstracted to the order of timer and read events.",
+    "level_note": "LTS tied to the code by the regenerated table/timer shape and by scripted-reader correspondence (incl. hook-forced callback delays in a child process). "
+                  "Fixed in /repo: F108 (ignoreST after Escape key inside a string), F29 (unguarded timer callback: late Escape, torn sequence, send on closed channel).",
     "timeout": 1800,
 }
